@@ -27,6 +27,9 @@ type Engine struct {
 	effVC    *VC
 	effMemo  map[*ssa.Function]*effSet
 	addrTaken map[*ssa.Function]bool
+	freshMemo map[string]bool
+	srcCache  map[string][]string
+	overlay   map[string][]byte
 }
 
 // Obligation is one proof goal: asserts[0:Prefix] /\ Guard |= Goal.
@@ -125,10 +128,15 @@ type VC struct {
 	recovered   Term
 	topFrame    *Frame
 	lastRet     map[string][]Val
+	retLog      []retEntry       // results of calls of the top frame, in execution order
+	curBlock    *ssa.BasicBlock  // block of the top frame being executed
+	siteBlock   *ssa.BasicBlock  // block of the assert-at site being evaluated
 	fieldRange  map[string][2]string
 	rangeSeen   map[string]bool
 	nPanicEdges int
 	immutable   map[string]bool
+	siteCounted map[string]bool
+	seenObl     map[string]bool
 	curIface    *types.Named
 	curMethod   *types.Func
 }
@@ -137,7 +145,7 @@ func newVC(eng *Engine, fn *ssa.Function, con *Contract, known map[string]string
 	vc := &VC{eng: eng, fn: fn, con: con, declSet: map[string]bool{}, heapSort: map[string]string{},
 		heapKnown: map[string]bool{}, strConsts: map[string]string{}, typeIDs: map[string]int{},
 		notes: map[string]bool{}, unsup: map[string]bool{}, oblNames: map[string]int{}, callN: map[string]int{},
-		ghostSeen: map[string]bool{}, fieldCodes: map[string]int{}, statics: map[string]int{}, lastRet: map[string][]Val{}, fieldRange: map[string][2]string{}, rangeSeen: map[string]bool{}, immutable: map[string]bool{}}
+		ghostSeen: map[string]bool{}, fieldCodes: map[string]int{}, statics: map[string]int{}, lastRet: map[string][]Val{}, fieldRange: map[string][2]string{}, rangeSeen: map[string]bool{}, immutable: map[string]bool{}, siteCounted: map[string]bool{}, seenObl: map[string]bool{}}
 	if con != nil && con.Strings == "smt" {
 		vc.smtStr = true
 	}
@@ -175,6 +183,10 @@ func (vc *VC) assume(t Term) {
 	if t == "true" || t == "" {
 		return
 	}
+	if strings.Contains(t, "specerr!") {
+		// a contract expression that failed to evaluate is never assumed
+		return
+	}
 	vc.asserts = append(vc.asserts, "(assert "+t+")")
 }
 
@@ -197,7 +209,9 @@ func (vc *VC) define(base, sort string, expr Term) Term {
 // quantifier (they become antecedents inside its body).
 func (vc *VC) fact(t Term, f Term) {
 	if strings.Contains(t, "q_") {
-		vc.qfacts = append(vc.qfacts, f)
+		// Facts about terms under a quantifier are dropped: as antecedents they would
+		// make a quantified hypothesis unusable (the solver cannot establish them),
+		// and they are never needed for soundness.
 		return
 	}
 	vc.assume(f)
@@ -745,6 +759,19 @@ func (vc *VC) oblige(st *State, kind, anchor string, goal Term, pos token.Pos) *
 	if goal == "true" {
 		return nil
 	}
+	if strings.Contains(goal, "specerr!") {
+		// the clause could not be evaluated against the current code (contract
+		// target changed): the obligation fails, nothing is assumed
+		goal = "false"
+	}
+	if safetyKind(kind) {
+		// the same run-time check under the same path condition was already obliged
+		key := st.reach + "|" + goal
+		if vc.seenObl[key] {
+			return nil
+		}
+		vc.seenObl[key] = true
+	}
 	base := fmt.Sprintf("%s/%s/%s", vc.fnName(), kind, normAnchor(anchor))
 	vc.oblNames[base]++
 	name := base
@@ -862,4 +889,34 @@ func (vc *VC) havocOne(old *State, name string) Term {
 		return vc.get(old, name)
 	}
 	return vc.freshConst(name, vc.heapSort[name])
+}
+
+type retEntry struct {
+	name  string
+	block *ssa.BasicBlock
+	vals  []Val
+	ord   int // ordinal of the call site among the calls to name (execution order of the VC)
+}
+
+// lookupRet: results of the latest call to callee that dominates the current
+// assert-at site (or simply the latest one when there is no site).
+func (vc *VC) lookupRet(callee string) ([]Val, bool) {
+	want := 0
+	if i := strings.Index(callee, "#"); i >= 0 {
+		fmt.Sscanf(callee[i+1:], "%d", &want)
+		callee = callee[:i]
+	}
+	for i := len(vc.retLog) - 1; i >= 0; i-- {
+		e := vc.retLog[i]
+		if !calleeMatch(e.name, callee) {
+			continue
+		}
+		if want != 0 && e.ord != want {
+			continue
+		}
+		if vc.siteBlock == nil || e.block == nil || e.block == vc.siteBlock || e.block.Dominates(vc.siteBlock) {
+			return e.vals, true
+		}
+	}
+	return nil, false
 }
